@@ -260,6 +260,7 @@ func mergeCorpus() []*mergeCase {
 		return mc
 	}
 	q := "type Query { a: String }\n"
+	rep := "directive @tag(name: String) repeatable on OBJECT | FIELD_DEFINITION\n"
 	return []*mergeCase{
 		mk("corpus: interface field renamed (same count)", q+"interface I { a: String }\ntype T implements I { a: String }", q+"interface I { b: String }\ntype U implements I { b: String }"),
 		mk("corpus: enum value renamed (same count)", q+"enum E { A B }", q+"enum E { A C }"),
@@ -270,6 +271,13 @@ func mergeCorpus() []*mergeCase {
 		mk("", "interface Node { id: ID! }\ntype User implements Node { id: ID! a: String }\ntype Query { u: User }", "type User { id: ID! b: String }\ntype Query { v: User }"),
 		mk("corpus: default value list content", q+"type T { f(a: [Int] = [1]): String }", q+"type T { f(a: [Int] = [2]): String }"),
 		mk("corpus: default value one side only", q+"type T { f(a: Int): String }", q+"type T { f(a: Int = 1): String }"),
+		// a repeatable directive applied more than once: the lists are compared as multisets, whatever the order of the services
+		mk("corpus: repeated directive, one application differs", q+rep+"type T @tag(name: \"a\") @tag(name: \"a\") { x: Int }", q+rep+"type T @tag(name: \"a\") @tag(name: \"b\") { x: Int }"),
+		mk("", q+rep+"type T @tag(name: \"a\") @tag(name: \"b\") { x: Int }", q+rep+"type T @tag(name: \"a\") @tag(name: \"b\") { x: Int }"),
+		mk("", q+rep+"type T @tag(name: \"a\") @tag(name: \"b\") { x: Int @tag(name: \"f\") @tag(name: \"g\") }", q+rep+"type T @tag(name: \"b\") @tag(name: \"a\") { x: Int @tag(name: \"g\") @tag(name: \"f\") }"),
+		mk("corpus: repeated directive on a field, one application differs", q+rep+"type T { x: Int @tag(name: \"f\") @tag(name: \"g\") }", q+rep+"type T { x: Int @tag(name: \"f\") @tag(name: \"f\") }",
+			q+rep+"type T { x: Int @tag(name: \"g\") @tag(name: \"f\") }"),
+		mk("corpus: directive repeatable in one service only", q+rep+"type T @tag(name: \"a\") { x: Int }", q+"directive @tag(name: String) on OBJECT | FIELD_DEFINITION\ntype T @tag(name: \"a\") { x: Int }"),
 		mk("corpus: union different member (same count)", q+"type P { a: String }\ntype R { a: String }\nunion M = P | R", q+"type P { a: String }\ntype S { a: String }\nunion M = P | S"),
 	}
 }
